@@ -291,3 +291,8 @@ harness('C14', 'connection-errors-each-handler-once[many]', functions=[_CQ + 'er
 from contracts import c17_plan_order as _C17
 _RF = 'cassandra.cluster.ResponseFuture.'
 harness('C14', 'retry-is-sent-once', functions=[_RF + '_retry_task', _RF + '_query', _RF + 'send_request'], native='contracts.native.c17:replay')(_C17.retry_task)
+
+# Continuations that run later (the re-prepare answer handled on the executor) must do nothing once the future has completed - a request sent after the outcome
+# brings a second outcome.  C19's contract on _execute_after_prepare (incl. its `already failed` case), re-discharged here.
+from contracts import c19_reprepare as _C19
+harness('C14', 'reprepare-continuation-after-completion', functions=[_RF + '_execute_after_prepare', _RF + '_query'], native='contracts.native.c19:replay')(_C19.after_prepare)
